@@ -620,6 +620,7 @@ func (e *Engine) ensureInit(p *ssa.Package) {
 	if skipInitPkgs[p.Pkg.Path()] {
 		return
 	}
+	p.Build()
 	initFn := p.Func("init")
 	if initFn == nil || len(initFn.Blocks) == 0 {
 		return
